@@ -14,3 +14,4 @@ pub mod reader;
 pub mod robotics;
 pub mod serq;
 pub mod snippet;
+pub mod tls;
